@@ -145,6 +145,11 @@ func c05Raw(p *Prog, r *Report, R string, rels []string) {
 		r.Check(okq, R, rel+"/queued-only-on-addressed-pipe", snd.Pos(p), "the reply is queued only on the sendQ of the pipe named by its header, on the lookup hit", "the reply can go to a pipe other than the one its header names: "+argsOf(snd))
 		fr := sm.Ev("call", "mangos.(*Message).Free").Guarded("!" + hit)
 		rt := sm.Ev("return", "").Guarded("!" + hit)
+		if len(fr) == 0 && len(rt) == 0 {
+			// the miss and the short header share one discard exit (a flag set only by the hit)
+			fr = sm.Ev("call", "mangos.(*Message).Free").Guarded("maybe-not:" + hit)
+			rt = sm.Ev("return", "").Guarded("maybe-not:" + hit)
+		}
 		r.Check(len(fr) == 1 && len(rt) == 1 && rt[0].Args[0] == "nil", R, rel+"/unknown-pipe-discarded", fr.Pos(p), "unknown pipe id: freed, nil", "a reply for an unknown/closed pipe is not discarded silently")
 		// lookup under the lock
 		lk := false
